@@ -12,7 +12,10 @@ tests = matrix.count("| pass |")
 text = "%d changes (own mutants and sub-agent changes), %d caught by at least one listed property's quick check, %d confirmed against the existing test suite (`pass`; `n/c` = not run for that entry)." % (n, caught, tests)
 if missed:
     text += " Not caught: " + ", ".join(missed) + "."
-body = "<!-- BEGIN MATRIX -->\n" + text + "\n\n" + matrix + "<!-- END MATRIX -->"
+rev = subprocess.run([sys.executable, os.path.join(d, "report.py"), "results_reverts.json"], stdout=subprocess.PIPE, text=True, check=True).stdout
+body = ("<!-- BEGIN MATRIX -->\n" + text + "\n\n" + matrix +
+        "\nEvery repaired defect of 11.3 brought back (`selftest/reverts/`: the fix commit reverted, or re-introduced by hand where a later fix rewrote the code); "
+        "the failing case found is kept as `corpus/<id>/<name>.choices`:\n\n" + rev + "<!-- END MATRIX -->")
 s = open(design).read()
 a, b = s.index("<!-- BEGIN MATRIX -->"), s.index("<!-- END MATRIX -->") + len("<!-- END MATRIX -->")
 open(design, "w").write(s[:a] + body + s[b:])
